@@ -304,6 +304,30 @@ def r1b_text_parsers(ctx) -> None:
                 h = caught_locally(prog, fi, call, exc)
                 if h is not None:
                     return any(isinstance(x, ast.Raise) and x.exc is not None and "Sigma" in unparse(x.exc) for x in ast.walk(h))
+                # inside `with <context manager of the program>:` whose generator body converts the exception around its yield
+                for anc in prog.ancestors(call):
+                    if anc is fi.node:
+                        break
+                    if isinstance(anc, ast.With):
+                        for item in anc.items:
+                            ce = item.context_expr
+                            if not isinstance(ce, ast.Call):
+                                continue
+                            cmf = None
+                            if isinstance(ce.func, ast.Attribute) and isinstance(ce.func.value, ast.Name) and ce.func.value.id in ("self", "cls") and fi.cls is not None:
+                                cmf = prog.lookup_method(fi.cls.qual, ce.func.attr)
+                            elif isinstance(ce.func, ast.Name):
+                                cq_ = prog.resolve_expr(fi.module, ce.func)
+                                cmf = prog.funcs.get(cq_) if cq_ else None
+                            if cmf is None or not any(d_.split(".")[-1] == "contextmanager" for d_ in cmf.decorators):
+                                continue
+                            for t_ in (x for x in walk_no_nested(cmf.node) if isinstance(x, ast.Try)):
+                                if not any(isinstance(y, (ast.Yield, ast.YieldFrom)) for st_ in t_.body for y in ast.walk(st_)):
+                                    continue
+                                for h_ in t_.handlers:
+                                    hn = [unparse(x).rsplit(".", 1)[-1] for x in (h_.type.elts if isinstance(h_.type, ast.Tuple) else [h_.type])] if h_.type is not None else ["BaseException"]
+                                    if exc.rsplit(".", 1)[-1] in hn or "Exception" in hn or "BaseException" in hn:
+                                        return any(isinstance(x, ast.Raise) and x.exc is not None and "Sigma" in unparse(x.exc) for x in ast.walk(h_))
                 if depth >= 3:
                     return False
                 sites = []
